@@ -4,6 +4,7 @@ import (
 	"errors"
 	"fmt"
 	"math"
+	"runtime"
 	"runtime/debug"
 	"strings"
 	"testing"
@@ -606,6 +607,46 @@ func c07(args []string) int {
 				names = append(names, s.name)
 			}
 			out.Sample(map[string]interface{}{"chain": names, "estimated_size": size}, 5)
+		}
+	}
+	// every encoded size around the capacity of a fresh pooled buffer: the pools are emptied first (two GC cycles
+	// drop what a sync.Pool holds), so that the event under test starts from the initial 500-byte buffer and has to
+	// grow it exactly when its size crosses that capacity - after which ("once warm") the same chain must be free
+	if f.Shard == 0 || f.NShards == 1 {
+		lens := []int{}
+		for L := 380; L <= 520; L++ {
+			lens = append(lens, L)
+		}
+		if f.Thorough() {
+			for L := 0; L <= 1300; L++ {
+				lens = append(lens, L)
+			}
+		}
+		for _, lgi := range []int{1, 4} { // "plain" and "context+timestamp" (positions in the logger table)
+			l := &loggers[lgi].l
+			for _, L := range lens {
+				for _, send := range []bool{true, false} {
+					v := strings.Repeat("s", L)
+					fn := func() {
+						e := l.Info().Str("p", v)
+						if send {
+							e.Send()
+						} else {
+							e.Msg("m")
+						}
+					}
+					runtime.GC()
+					runtime.GC()
+					for i := 0; i < 20; i++ {
+						fn()
+					}
+					if a := testing.AllocsPerRun(50, fn); a >= 1 {
+						out.Violate("allocs:at-buffer-capacity", fmt.Sprintf("%.1f allocs/op once warm for logger=%s Info().Str(\"p\", <%d bytes>).%s starting from fresh pools", a, loggers[lgi].name, L, map[bool]string{true: "Send()", false: "Msg(..)"}[send]),
+							map[string]interface{}{"check": "c07", "seed": f.Seed, "tier": f.Tier, "len": L})
+					}
+					out.Count("buffer_capacity_sweep_cases", 1)
+				}
+			}
 		}
 	}
 	// a small chain must not cause allocations whatever was logged before it: after events far larger than the
